@@ -6,7 +6,7 @@
    reachable_from a l:= l is obtained from a by any finite sequence of Set / Delete
    keys l            := the keys in order;  a_count k l := how many members have key k
    members_from h i  := the non-empty trimmed comma-separated fields of h[i..]                  *)
-From V Require Import C14.Glue C14.ProofsBase C14.ProofsRx C14.Proofs C14.ProofsImpl C14.ProofsSpec.
+From V Require Import C14.Glue C14.ProofsBase C14.ProofsRx C14.Proofs C14.ProofsImpl C14.ProofsSpec C14.ProofsGlue.
 
 (* ---- the validators are the W3C grammar (regex literals re-translated from trace_state.h on every run) *)
 Theorem valid_key_iff_grammar : forall k : bytes, is_valid_key k = g_valid_key k.
@@ -90,6 +90,14 @@ Theorem get_after_delete : forall (k : bytes) (l : tstate), ts_get k (ts_delete 
 Proof. exact Proofs.get_after_delete. Qed.
 Print Assumptions get_after_delete.
 
+(* over whole histories: after a successful Set(k,v), later valid updates of other keys never change Get(k) *)
+Theorem get_most_recent_set : forall (k v : bytes) (l : tstate) (us : list upd),
+  is_valid_key k = true -> is_valid_value v = true -> (has_key k l = true \/ length l < kMaxKeyValuePairs) ->
+  Forall (other_valid_upd k) us ->
+  ts_get k (fold_left apply_upd us (ts_set k v l)) = Some v.
+Proof. exact Proofs.get_most_recent_set. Qed.
+Print Assumptions get_most_recent_set.
+
 (* ---- sentence 5: the original object is never modified; invalid / over-long => empty, never partial; round trip *)
 Theorem original_unchanged : forall (objs : list tstate) (o : op) (r : opobs) (newobj : option tstate),
   model_step objs o = Some (r, newobj) ->
@@ -160,3 +168,10 @@ Theorem model_meets_spec : forall (h : bytes) (ops : list op) (o0 : objobs) (rs 
   model_case h ops = Some (o0, rs) -> spec_case h ops o0 rs = [].
 Proof. exact ProofsSpec.model_meets_spec. Qed.
 Print Assumptions model_meets_spec.
+
+(* ... down to the token lines the runner compares: whenever the extracted model prints an observation
+   for a case line, the extracted SPEC entry point accepts exactly that line *)
+Theorem run_spec_accepts_run_model : forall (c : list tok) (h : bytes) (ops : list op),
+  parse_case c = Some (h, ops) -> model_case h ops <> None -> run_spec c (run_model c) = [].
+Proof. exact ProofsGlue.run_spec_accepts_run_model. Qed.
+Print Assumptions run_spec_accepts_run_model.
